@@ -268,6 +268,49 @@ def writer_rule(ck, facts):
     return n
 
 
+def fifo_rule(ck, facts, fns):
+    """R15.7: items (and the error that ends them) leave an intermediate buffer in the order they entered it.  For every
+    function of the scope (with its closures) that both fills and drains a Vec/VecDeque of `Result` items, the pair
+    (fill end, drain end) must be first-in-first-out: push_back/pop_front, push_front/pop_back, Vec::push with
+    remove(0) / drain / into_iter.  push_back/pop_back or Vec::push/Vec::pop reverses the items of a multi-item step and
+    yields a trailing error *before* the items that preceded it."""
+    BUF = r"^&mut (std::collections::VecDeque|std::vec::Vec)<std::result::Result<"
+    n = 0
+    done = set()
+    for fn in fns:
+        root = fn if fn.kind != "Closure" else facts.fns.get(fn.root, fn)
+        if root.id in done:
+            continue
+        done.add(root.id)
+        fill, drain = set(), set()
+        for f in facts.with_closures(root):
+            for bi, t in f.calls():
+                if not t["args"] or t["args"][0][0] == "k":
+                    continue
+                a0 = t["args"][0][1]
+                if len(a0) != 1 or not re.search(BUF, f.locals[a0[0]]["ty"]):
+                    continue
+                m = re.search(r"(VecDeque|Vec)::<T, A>::(push_back|push_front|push|insert|pop_front|pop_back|pop|remove|swap_remove|drain)$",
+                              t["f"].get("name") or "")
+                if not m:
+                    continue
+                op = "%s::%s" % (m.group(1), m.group(2))
+                (fill if m.group(2) in ("push_back", "push_front", "push", "insert") else drain).add(op)
+        if not fill or not drain:
+            continue
+        n += 1
+        lifo = {("VecDeque::push_back", "VecDeque::pop_back"), ("VecDeque::push_front", "VecDeque::pop_front"),
+                ("Vec::push", "Vec::pop"), ("Vec::push", "Vec::swap_remove")}
+        bad = sorted((a, b) for a in fill for b in drain if (a, b) in lifo)
+        if bad:
+            ck.bad("R15.7", "R15.7@%s#lifo-buffer" % root.name,
+                   "%s fills its buffer of items with %s and drains it with %s: last-in-first-out, the items of a multi-item "
+                   "step come out reversed and a trailing error overtakes them" % (root.name, bad[0][0], bad[0][1]), root.loc)
+        else:
+            ck.ok("R15.7", "%s: buffer of items is first-in-first-out (%s / %s)" % (root.name, sorted(fill), sorted(drain)))
+    return n
+
+
 def run(ck, facts, tier):
     facts.require_crates(["sophia_api", "sophia_rio", "sophia_turtle", "sophia_inmem", "sophia_xml", "sophia_jsonld"])
     import core
@@ -301,6 +344,8 @@ def run(ck, facts, tier):
     each_item_rule(ck, facts)
     n = swap_parity_rule(ck, facts, fns)
     ck.floor("R15.6", "functions swapping a buffer out of self", n, 2)
+    n = fifo_rule(ck, facts, fns)
+    ck.floor("R15.7", "functions that fill and drain a buffer of items", n, 2)
     n = writer_rule(ck, facts)
     ck.floor("R15.5", "line-oriented serializer closures", n, 2)
     ck.assumptions = ["position bookkeeping inside rio_turtle/rio_xml/json-ld is not decided",
